@@ -905,7 +905,9 @@ def check(run):
         "code point order, strings over control/ASCII/BMP/astral classes, deep shuffles of member order, small streams with "
         "NaN/Infinity and lone surrogates. Each value goes through canonicalize(v, utf8=False) and the Coq model; numbers "
         "also through py_repr/es6_tostring from independently obtained shortest digits. Non-trivial = the result is a text "
-        "(not an exception) and the value is not a bare null/true/false. History stream: a sample of the questions is asked "
+        "(not an exception) and the value is not a bare null/true/false. Position stream: about 100 scalars (ints beyond 2^53 and >= 1e21, floats, "
+        "strings, booleans, null) in seven positions each; the top-level text must reappear verbatim in every position. "
+        "History stream: a sample of the questions is asked "
         "again in one interpreter around other public calls of the package (serialize, canonicalize utf8=True, JSONEncoder "
         "with other options, convert2Es6Format and canonicalize on arguments that raise); answers must equal the fresh-interpreter ones.")
     with common.Lock():
